@@ -214,7 +214,7 @@ def edits_strategy(tier):
     types = ["emg", "platCal", "data3D", "force3D", "events", "optical", "platData", "data2D", "events"]
     return st.sampled_from(types).flatmap(lambda t: st.fixed_dictionaries({
         "spec": specs.SPEC[t](tier, 2), "hints": specs.HINTS,
-        "edits": st.lists(st.tuples(st.sampled_from(["remove", "remove", "add", "inplace"]), st.integers(0, 50)).map(list), min_size=1, max_size=5)}))
+        "edits": st.lists(st.tuples(st.sampled_from(["remove", "remove", "add", "inplace", "assign-refused", "assign-iter"]), st.integers(0, 50)).map(list), min_size=1, max_size=5)}))
 
 
 def run_edits(ctx, case):
@@ -255,6 +255,30 @@ def run_edits(ctx, case):
                             it.data[0] = np.nan if not np.isnan(np.asarray(it.data[0]).ravel()[0]) else 1.0
                     else:
                         continue
+                elif kind in ("assign-refused", "assign-iter"):
+                    # whole-list assignment: with an invalid element behind k valid ones (must be refused - whatever it leaves behind has to be
+                    # consistent), or as a one-shot iterator of valid elements (zip / generator)
+                    if t not in ("data3D", "force3D", "platCal", "platData"):
+                        continue
+                    src = list(fresh) if t not in ("platCal", "platData") else [p for _, p in (fresh.platforms if t == "platCal" else list(fresh))]
+                    if not src:
+                        continue
+                    seq = [src[(k + j) % len(src)] for j in range(1 + k % 3)]
+                    if t == "platCal":
+                        used = {int(c) for c, _ in blk.platforms}
+                        free = [c for c in range(200) if c not in used][:len(seq) + 1]
+                        pairs = list(zip(free, seq))
+                        arg = pairs + [(free[-1], "junk")] if kind == "assign-refused" else zip(free, seq)
+                    else:
+                        arg = seq + ["junk"] if kind == "assign-refused" else (x for x in seq)
+                    try:
+                        if t in ("data3D", "force3D"):
+                            blk.tracks = arg
+                        else:
+                            blk.platforms = arg
+                        ctx.label(f"{kind}:accepted")
+                    except Exception:  # noqa - a refusal is fine (C16 / C15 judge it); the sizes afterwards are what counts here
+                        ctx.label(f"{kind}:raised")
                 elif kind == "remove":
                     if t == "emg":
                         its = list(blk)
@@ -332,7 +356,8 @@ SUBS = [
     Sub("items", run_items, strategy=_items_strategy, budget=(1000, 30000), shards=(4, 16),
         rule="each nested item (track, signal, platform, camera, channel, event, 2D packet, viewport) of generated blocks on its own"),
     Sub("after-edits", run_edits, strategy=edits_strategy, budget=(500, 15000), shards=(2, 16),
-        rule="blocks with >= 2 items edited through the public interface (remove / add items): declared = written = consumed after every edit"),
+        rule="blocks with >= 2 items edited through the public interface (remove / add items, in-place content edits, whole-list assignments that are refused half-way or "
+             "come as one-shot iterators): declared = written = consumed after every edit"),
     Sub("long-tracks", run_block, strategy=specs.long_block_case, budget=(12, 300), shards=(6, 16),
         rule="blocks with 1-2 tracks of 257 .. 131079 frames, boundary-aligned gaps, thousands of runs, all input dtypes: declared = written = consumed = reference size"),
     Sub("boundary-counts", run_block, kind="enum", enumerate=specs.enum_boundary, shards=(8, 16),
